@@ -30,6 +30,8 @@ type c12Writer struct {
 	writing bool
 	overlap bool
 	preempt bool
+	finished bool // the handler has returned: net/http recycles the response, nothing may touch it any more
+	late     bool // ... but something did
 	sparse  bool // scheduling points only at boundary writes and flushes (not at every write)
 	gate    bool // writes are schedule gates: the native replay reproduces their order relative to payload production
 }
@@ -41,6 +43,9 @@ func (w *c12Writer) WriteHeader(code int) {
 	}
 }
 func (w *c12Writer) Write(p []byte) (int, error) {
+	if w.finished {
+		w.late = true
+	}
 	if w.writing {
 		w.overlap = true
 	}
@@ -53,6 +58,9 @@ func (w *c12Writer) Write(p []byte) (int, error) {
 	return len(p), nil
 }
 func (w *c12Writer) Flush() {
+	if w.finished {
+		w.late = true
+	}
 	if w.writing {
 		w.overlap = true
 	}
@@ -295,8 +303,10 @@ func Harness_C12_sse() {
 	}
 	zzsym.Assert(t.Supports(r), "the request is an SSE request")
 	t.Do(w, r, ex)
+	w.finished = true
 	cancel()
 	zzsym.Assert(zzsym.Quiesce() == 0, "the keep-alive goroutine ends when the request context is cancelled")
+	zzsym.Assert(!w.late, "nothing writes to the response after the handler has returned")
 	zzsym.Assert(!w.overlap, "the response writer is never entered by two goroutines at once")
 	datas, _, ok := c12ParseSSE(w.wire())
 	zzsym.Assert(ok, "the stream parses as complete events (pings between events only), ending with one complete")
@@ -389,8 +399,10 @@ func Harness_C05_streams() {
 		r.Header.Set("Accept", "multipart/mixed")
 		MultipartMixed{}.Do(w, r, ex)
 	}
+	w.finished = true
 	cancel() // the request has ended: net/http cancels its context
 	zzsym.Assert(zzsym.Quiesce() == 0, "no goroutine started by the transport outlives the request")
 	zzsym.Assert(!w.overlap, "the response writer is never entered by two goroutines at once")
+	zzsym.Assert(!w.late, "nothing writes to the response after the handler has returned")
 	zzsym.Reach("c05.streams")
 }
